@@ -83,7 +83,7 @@ def run_property(spec):
                 obligations.append(("proof", "theorem:" + t, not bad,
                                     "closed under the global context" if not bad
                                     else "depends on " + ", ".join(bad)))
-    bad_tokens = lib.forbidden_tokens()
+    bad_tokens = lib.forbidden_tokens(spec["targets"])
     obligations.append(("proof", "no-admit-no-axiom-grep", not bad_tokens, "; ".join(bad_tokens)))
 
     # 3. correspondence + oracle on the implementation
